@@ -21,6 +21,7 @@ import (
 	"github.com/glowlabs-org/gca-backend/server"
 
 	"verifh/shim/vmrand"
+	"verifh/shim/vos"
 	"verifh/shim/vsync"
 	"verifh/vsched"
 )
@@ -38,6 +39,11 @@ type srvScenarioDef struct {
 	// visible. Outcomes are compared without impact rates; instead every rate
 	// present must sit at the absolute timeslot the job ran for.
 	RatesLoose bool `json:"rates_loose"`
+	// CrashOnly: only panics, deadlocks, locks left held and a failing consistency check count (C12 is about
+	// crashing and wedging; equality with a sequential run is C13's business).
+	CrashOnly bool `json:"crash_only"`
+	// PageTear: a write that crosses a page boundary becomes visible page by page (see vos.SetPageTear).
+	PageTear bool `json:"page_tear"`
 }
 
 var (
@@ -340,6 +346,10 @@ func init() {
 				return out
 			}
 			vsync.ResetRegistry()
+			if d.PageTear {
+				vos.SetPageTear(true, pageTearPhantom(w.Dir))
+				defer vos.SetPageTear(false, nil)
+			}
 			obs := make([][]string, len(d.Threads))
 			var names []string
 			var bodies []func()
